@@ -899,6 +899,18 @@ func c18BinaryInner(t *testing.T) {
 		"cut-in-the-middle":   func(s string) string { return s[:len(s)/2] },
 		"number-for-string":   func(s string) string { return s + "router: 42\n" },
 		"empty-file":          func(s string) string { return "" },
+		// a fault far into a long file: whatever reads the file must read all of it
+		"fault-after-64KiB": func(s string) string {
+			pad := "# " + strings.Repeat("x", 78) + "\n"
+			for len(s)+len(pad) <= 65536 {
+				s += pad
+			}
+			s += "#" + strings.Repeat("y", 65536-len(s)-2) + "\n" // the 65536th octet ends a comment line
+			return s + "lease_duration: \"never\"\n"
+		},
+		"fault-after-1MiB": func(s string) string {
+			return s + strings.Repeat("# "+strings.Repeat("z", 77)+"\n", 1<<20/80+1) + "dynamic_range: \"1.2.3.4-1.2.3.9\"\n"
+		},
 	}
 	const workers = 8
 	var mu sync.Mutex
